@@ -10,8 +10,9 @@
    The connection object is modelled as observed on websockets 17.1 (and reproduced by the scripted
    fake connection of the harness, which is itself compared with a real loopback server each run):
    recv()/iteration deliver the scripted frames in order; when they are exhausted recv() raises
-   ConnectionClosedOK and iteration ends normally; after close() has been called frames already
-   buffered are STILL delivered, but send() raises ConnectionClosedOK. *)
+   ConnectionClosedOK and iteration ends normally.  (After close() frames already buffered would
+   still be delivered; since /repo b1e7ba9 the iterator leaves its loop on complete and never
+   looks at them.)  Serialisation of the subscribe follows /repo d334181 (default=to_jsonable_python). *)
 From Coq Require Import List String Ascii ZArith Bool.
 From AC Require Import Base.Sexp Base.Json.
 Import ListNotations.
@@ -138,23 +139,9 @@ Definition is_unset (v : pyv) : bool := match v with VUnset => true | _ => false
 Definition convert_dict (d : list (string * pyv)) : list (string * pyv) :=
   map (fun kv => (fst kv, convert_value (snd kv))) (filter (fun kv => negb (is_unset (snd kv))) d).
 
-(* json.dumps WITHOUT default= (the subscribe path): fails on anything not JSON-native *)
-Fixpoint dumps_strict (v : pyv) : option json :=
-  match v with
-  | VJ j => Some j
-  | VList l =>
-      option_map JArr
-      ((fix go (l : list pyv) : option (list json) :=
-          match l with
-          | [] => Some []
-          | x :: r => match dumps_strict x, go r with
-                      | Some a, Some b => Some (a :: b) | _, _ => None end
-          end) l)
-  | _ => None
-  end.
-
-(* json.dumps(..., default=to_jsonable_python) (what the HTTP path of the same client does):
-   the reference meaning of "the serialised variables" *)
+(* json.dumps(..., default=to_jsonable_python): what _send_subscribe does since d334181, the same
+   call as the HTTP path of the client.  Fails (PydanticSerializationError) only on values nothing
+   can encode, here UNSET nested in a list *)
 Fixpoint dumps_lenient (v : pyv) : option json :=
   match v with
   | VJ j => Some j
@@ -191,12 +178,12 @@ Definition subscribe_with (f : pyv -> option json) (rq : request) : option json 
   | Some [] => Some (mk base)                       (* `if variables:` *)
   | Some d => match dumps_dict f (convert_dict d) with
               | Some vs => Some (mk (base ++ [("variables", JObj vs)]))
-              | None => None                        (* TypeError from json.dumps *)
+              | None => None                        (* PydanticSerializationError from json.dumps *)
               end
   end.
 
-Definition subscribe_msg : request -> option json := subscribe_with dumps_strict.
-Definition subscribe_ref : request -> option json := subscribe_with dumps_lenient.
+Definition subscribe_msg : request -> option json := subscribe_with dumps_lenient.
+Definition SER_ERROR := "PydanticSerializationError".
 
 (* ------------------------------------------------------------------------------------------ *)
 (* _handle_ws_message                                                                          *)
@@ -287,7 +274,10 @@ Definition frame_json (f : frame) : json := match f with FJson j => j | FText _ 
 (* ------------------------------------------------------------------------------------------ *)
 (* The machine                                                                                 *)
 
-Inductive phase := AwaitAck | Streaming | Closed | Done (o : outcome).
+(* `data is not None` (since /repo 8b27040; before: Python truthiness of the data) *)
+Definition nonnull (j : json) : bool := match j with JNull => false | _ => true end.
+
+Inductive phase := AwaitAck | Streaming | Done (o : outcome).
 
 Definition step (rq : request) (ph : phase) (f : frame) : phase * list event :=
   match ph with
@@ -299,24 +289,21 @@ Definition step (rq : request) (ph : phase) (f : frame) : phase * list event :=
       | TKnown MAck _ =>
           match subscribe_msg rq with
           | Some m => (Streaming, [ERecv; ESend m])
-          | None => (Done (RaisedOther "TypeError"), [ERecv])
+          | None => (Done (RaisedOther SER_ERROR), [ERecv])
           end
       | TKnown _ _ => (Done (RaisedInvalid None), [ERecv])
       end
-  | _ =>
+  | Streaming =>
       match msg_type f with
       | TInvalid => (Done (RaisedInvalid (Some f)), [ERecv])
       | TCrash e => (Done (RaisedOther e), [ERecv])
       | TKnown t p =>
           match action_of t p with
           | ANone => (ph, [ERecv])
-          | AData d => (ph, ERecv :: if truthy d then [EYield d] else [])   (* `if data: yield data` *)
+          | AData d => (ph, ERecv :: if nonnull d then [EYield d] else [])   (* `if data is not None: yield data` *)
           | AInvalid => (Done (RaisedInvalid (Some f)), [ERecv])
-          | AClose => (Closed, [ERecv; EClose])
-          | APong => match ph with
-                     | Closed => (Done ConnClosed, [ERecv])     (* send() on a closed connection *)
-                     | _ => (ph, [ERecv; ESend pong_msg])
-                     end
+          | AClose => (Done Finished, [ERecv; EClose])   (* close(); return _WS_COMPLETE; break *)
+          | APong => (ph, [ERecv; ESend pong_msg])
           | AMulti errs => (Done (RaisedMulti errs (frame_json f)), [ERecv])
           | ACrash e => (Done (RaisedOther e), [ERecv])
           end
@@ -335,7 +322,7 @@ Fixpoint run_from (rq : request) (ph : phase) (fs : list frame) : list event * p
 Definition finish (ph : phase) : outcome :=
   match ph with
   | AwaitAck => ConnClosed        (* recv() before the ack on an exhausted connection *)
-  | Streaming | Closed => Finished
+  | Streaming => Finished
   | Done o => o
   end.
 
@@ -377,24 +364,21 @@ Definition step_otel (rq : request) (ph : phase) (f : frame) : phase * list even
           (* the "subscribe" span json.dumps the converted variables before _send_subscribe *)
           match subscribe_msg rq with
           | Some m => (Streaming, [ERecv; ESend m], [SPAN_RECV; "subscribe"])
-          | None => (Done (RaisedOther "TypeError"), [ERecv], [SPAN_RECV; "subscribe"])
+          | None => (Done (RaisedOther SER_ERROR), [ERecv], [SPAN_RECV; "subscribe"])
           end
       | TKnown _ _ => (Done (RaisedInvalid None), [ERecv], [SPAN_RECV])
       end
-  | _ =>
+  | Streaming =>
       match msg_type_otel f with
       | TInvalid => (Done (RaisedInvalid (Some f)), [ERecv], [SPAN_RECV])
       | TCrash e => (Done (RaisedOther e), [ERecv], [SPAN_RECV])
       | TKnown t p =>
           match action_of t p with
           | ANone => (ph, [ERecv], [SPAN_RECV])
-          | AData d => (ph, ERecv :: if truthy d then [EYield d] else [], [SPAN_RECV])
+          | AData d => (ph, ERecv :: if nonnull d then [EYield d] else [], [SPAN_RECV])
           | AInvalid => (Done (RaisedInvalid (Some f)), [ERecv], [SPAN_RECV])
-          | AClose => (Closed, [ERecv; EClose], [SPAN_RECV])
-          | APong => match ph with
-                     | Closed => (Done ConnClosed, [ERecv], [SPAN_RECV])
-                     | _ => (ph, [ERecv; ESend pong_msg], [SPAN_RECV])
-                     end
+          | AClose => (Done Finished, [ERecv; EClose], [SPAN_RECV])
+          | APong => (ph, [ERecv; ESend pong_msg], [SPAN_RECV])
           | AMulti errs => (Done (RaisedMulti errs (frame_json f)), [ERecv], [SPAN_RECV])
           | ACrash e => (Done (RaisedOther e), [ERecv], [SPAN_RECV])
           end
@@ -489,9 +473,9 @@ Definition spec_ws (c : cfg) (rq : request) (fs : list frame) : trace :=
     | [] => ([], ConnClosed)
     | f :: r =>
         match skind_of f with
-        | SAck => match subscribe_ref rq with
+        | SAck => match subscribe_msg rq with
                   | Some m => let '(e, o) := spec_stream r in (ERecv :: ESend m :: e, o)
-                  | None => ([ERecv], RaisedOther "TypeError")   (* not serialisable at all *)
+                  | None => ([ERecv], RaisedOther SER_ERROR)   (* not serialisable at all *)
                   end
         | _ => ([ERecv], RaisedInvalid None)     (* which message text: not specified *)
         end
@@ -541,32 +525,13 @@ Fixpoint spec_prefix (fs : list frame) : list frame :=
   | f :: r => if terminal (skind_of f) then [f] else f :: spec_prefix r
   end.
 
-(* G14: every next frame the specification yields carries truthy data *)
-Definition g_truthy (fs : list frame) : bool :=
-  forallb (fun f => match skind_of f with SNext d => truthy d | _ => true end) (spec_prefix fs).
+(* G14 (narrowed by /repo 8b27040): no next frame the specification yields carries `data: null` *)
+Definition g_nonnull (fs : list frame) : bool :=
+  forallb (fun f => match skind_of f with SNext d => nonnull d | _ => true end) (spec_prefix fs).
 
-(* G26: nothing follows the complete frame that ends the specified stream *)
-Fixpoint g_stop (fs : list frame) : bool :=
-  match fs with
-  | [] => true
-  | f :: r =>
-      match skind_of f with
-      | SComplete => match r with [] => true | _ => false end
-      | SError _ | SMalformed => true
-      | _ => g_stop r
-      end
-  end.
-
-(* G-shape over the frames the CODE may look at (all of them: it does not stop at complete) *)
-Definition g_shape (fs : list frame) : bool := forallb shape_ok fs.
-
-(* G-vars: json.dumps without default= can encode the converted variables whenever the reference
-   serialisation can *)
-Definition g_vars (rq : request) : bool :=
-  match subscribe_ref rq, subscribe_msg rq with
-  | Some _, None => false
-  | _, _ => true
-  end.
+(* G-shape over the frames the specification consumes *)
+Definition g_shape (fs : list frame) : bool :=
+  match fs with [] => true | f :: r => shape_ok f && forallb shape_ok (spec_prefix r) end.
 
 Definition is_ack (f : frame) : bool := match skind_of f with SAck => true | _ => false end.
 
@@ -676,9 +641,8 @@ Definition run_ws_cmd (e : sexp) : sexp :=
   | L [A "guards"; rq; fs] =>
       match dRequest rq, dList dFrame fs with
       | Some rq, Some fs =>
-          L [sB (g_vars rq); sB (g_shape fs);
-             sB (match fs with f :: r => g_truthy r | [] => true end);
-             sB (match fs with f :: r => g_stop r | [] => true end);
+          L [sB (g_shape fs);
+             sB (match fs with f :: r => g_nonnull r | [] => true end);
              L (map (fun f => sKind (skind_of f)) fs)]
       | _, _ => sErr "guards: input"
       end
